@@ -447,7 +447,16 @@ impl Printable for Member {
 				p!(out, {n.field_name()} if(n.plus_token().is_some())({n.plus_token()}) {n.visibility()} str(" ") {n.expr()});
 			}
 			Self::MemberFieldMethod(m) => {
-				p!(out, {m.field_name()} {m.params_desc()} {m.visibility()} str(" ") {m.expr()});
+				// `name+: function(..) e` has no method form: `+` cannot be combined with parameters
+				let plus = m
+					.syntax()
+					.children_with_tokens()
+					.any(|c| c.kind() == jrsonnet_rowan_parser::T![+]);
+				if plus {
+					p!(out, {m.field_name()} str("+") {m.visibility()} str(" function") {m.params_desc()} nl {m.expr()});
+				} else {
+					p!(out, {m.field_name()} {m.params_desc()} {m.visibility()} str(" ") {m.expr()});
+				}
 			}
 		}
 	}
